@@ -43,6 +43,12 @@ pub enum TOp {
   CloneArena,
   /// drop one arena value owned by this thread (the last clone first, finally its own)
   DropArena,
+  /// litmus steps on the header atomics (self-test of the non-SC exploration): 0 set_minimum_segment_size(24),
+  /// 1 increase_discarded(1), 2 observe discarded(), 3 observe minimum_segment_size()
+  Lit0,
+  Lit1,
+  Lit2,
+  Lit3,
 }
 
 impl TOp {
@@ -59,6 +65,10 @@ impl TOp {
       TOp::Discard => "Disc".into(),
       TOp::CloneArena => "Clone".into(),
       TOp::DropArena => "DropArena".into(),
+      TOp::Lit0 => "SetMin24".into(),
+      TOp::Lit1 => "IncDisc1".into(),
+      TOp::Lit2 => "ReadDisc".into(),
+      TOp::Lit3 => "ReadMin".into(),
     }
   }
 }
@@ -190,6 +200,10 @@ struct Eng {
   spur: u8,
   /// the message the load in flight reads (weak mode)
   pending_read: Option<u32>,
+  /// the zeroing write just announced lies outside the arena and is left out
+  skip_write: bool,
+  /// values observed by the litmus steps: (thread, step, value)
+  obs: Vec<(u8, u8, u64)>,
 }
 
 thread_local! {
@@ -685,15 +699,15 @@ impl Hook for H {
         let rel = addr as i128 - e.rg.base as i128;
         let cap = e.rg.cap;
         e.viol.push(V { class: "wild-access".into(), sig: "wild-access:zeroing".into(), msg: format!("thread {} zeroes {} bytes at arena offset {} (capacity {}): outside the arena", cur, len, rel, cap) });
-        // the write has not happened yet (the hook reports first): the execution is abandoned before it can
-        // damage the explorer's own heap
-        e.aborting = true;
+        // the write has not happened yet (the hook reports first) and is left out (`skip_plain_write`): it would
+        // damage the explorer's own heap.  The execution goes on, so that observers see the state it leaves.
+        e.skip_write = true;
         return true;
       }
       false
     });
     if bad {
-      std::panic::panic_any(Abort);
+      return;
     }
     ENG.with(|e| {
       let mut e = e.borrow_mut();
@@ -717,6 +731,10 @@ impl Hook for H {
         e.trace.push(TraceEv { tid: cur, what: format!("zero [{},{})", off, off + len) });
       }
     });
+  }
+
+  fn skip_plain_write(&self, _addr: usize, _len: usize) -> bool {
+    ENG.with(|e| std::mem::take(&mut e.borrow_mut().skip_write))
   }
 
   fn teardown(&self, _addr: usize, _len: usize) {
@@ -1039,6 +1057,16 @@ fn run_thread(tid: usize, sh: &Shared, prog: &[TOp], mine: Option<Arena>) {
         clones.push(a.clone());
         values(1);
       }
+      TOp::Lit0 => a.set_minimum_segment_size(24),
+      TOp::Lit1 => a.increase_discarded(1),
+      TOp::Lit2 => {
+        let v = a.discarded() as u64;
+        ENG.with(|e| e.borrow_mut().obs.push((tid as u8, 2, v)));
+      }
+      TOp::Lit3 => {
+        let v = a.minimum_segment_size() as u64;
+        ENG.with(|e| e.borrow_mut().obs.push((tid as u8, 3, v)));
+      }
       TOp::DropArena => {
         if let Some(c) = clones.pop() {
           values(-1);
@@ -1086,6 +1114,7 @@ pub struct ExecOut {
   pub teardowns: u32,
   pub max_op_events: u64,
   pub choice_keys: Vec<u64>,
+  pub obs: Vec<(u8, u8, u64)>,
 }
 
 pub struct ExecOpts {
@@ -1397,6 +1426,7 @@ pub fn run_one(h: &Harness, prefix: &[u8], o: &ExecOpts) -> ExecOut {
       teardowns: e.teardowns,
       max_op_events: e.max_op_events,
       choice_keys: std::mem::take(&mut e.choice_keys),
+      obs: std::mem::take(&mut e.obs),
     }
   });
   if torn {
@@ -1647,4 +1677,57 @@ pub fn replay(case: &Value) -> i32 {
   } else {
     1
   }
+}
+
+/// Self-test of the non-SC exploration on the arena's own header atomics.  Store buffering
+/// (`set_min(24); r1 = discarded()` against `increase_discarded(1); r2 = minimum_segment_size()`): the outcome
+/// r1 = 0 and r2 = 8 is impossible in every interleaving and must appear as soon as one stale read is allowed.
+/// Message passing (`set_min(24); increase_discarded(1)` against `d = discarded(); m = minimum_segment_size()`, a
+/// release store followed by a release RMW, read by acquire loads): d = 1 with m = 8 must never appear.
+/// Returns (SB outcomes with stale 0, SB outcomes with stale 1, MP outcomes with stale 2, executions).
+pub fn litmus() -> Result<serde_json::Value, String> {
+  use std::collections::BTreeSet;
+  let outcomes = |progs: Vec<Vec<TOp>>, stale: u8| -> (BTreeSet<Vec<(u8, u8, u64)>>, u64) {
+    let h = Harness { fl: Fl::None, unify: true, min_seg: 8, cap: 256, shape: 0, progs, own_arenas: false, leave: 64, odd: 0, reserved: 0 };
+    let o = ExecOpts { tracing: false, hash_states: false, hb: true, drain: false, cache: false, bounded: true, stale, spur: 0 };
+    let mut stack: Vec<Vec<u8>> = vec![vec![]];
+    let mut set = BTreeSet::new();
+    let mut n = 0;
+    while let Some(p) = stack.pop() {
+      let out = run_one(&h, &p, &o);
+      n += 1;
+      let mut ob = out.obs.clone();
+      ob.sort();
+      set.insert(ob);
+      for i in p.len()..out.choices.len() {
+        let c = &out.choices[i];
+        if c.kind == 1 && c.dev_before >= stale {
+          continue;
+        }
+        for alt in 1..c.n {
+          let mut np: Vec<u8> = out.choices[..i].iter().map(|x| x.chosen).collect();
+          np.push(alt);
+          stack.push(np);
+        }
+      }
+    }
+    (set, n)
+  };
+  use TOp::*;
+  let sb = vec![vec![Lit0, Lit2], vec![Lit1, Lit3]];
+  let mp = vec![vec![Lit0, Lit1], vec![Lit2, Lit3]];
+  let (sb0, n0) = outcomes(sb.clone(), 0);
+  let (sb1, n1) = outcomes(sb, 1);
+  let (mp2, n2) = outcomes(mp, 2);
+  let weak_sb = vec![(0u8, 2u8, 0u64), (1, 3, 8)];
+  if sb0.contains(&weak_sb) {
+    return Err("store-buffering outcome (0, 8) in a sequentially consistent exploration".into());
+  }
+  if !sb1.contains(&weak_sb) {
+    return Err(format!("store-buffering outcome (0, 8) not produced with one stale read: {:?}", sb1));
+  }
+  if mp2.contains(&vec![(1u8, 2u8, 1u64), (1, 3, 8)]) {
+    return Err("message passing through a release store and acquire loads violated".into());
+  }
+  Ok(json!({"store_buffering_outcomes_sc": sb0.len(), "store_buffering_outcomes_one_stale_read": sb1.len(), "message_passing_outcomes_two_stale_reads": mp2.len(), "executions": n0 + n1 + n2}))
 }
